@@ -1,5 +1,6 @@
 import DracoModel.Proto
 import DracoModel.EbEncoder
+import DracoModel.EbEncHyps
 import DracoModel.Decoder
 import DracoModel.Spec
 import Ops.SeqEnc
@@ -7,7 +8,7 @@ import Ops.Metadata
 /- op handler tying the Edgebreaker mesh ENCODER model (lean/DracoModel/EbEnc*.lean) to the C++ (C01/C09):
 
    ebenc <the option tokens of the harness op `enc`> hex=<stream produced by the C++> -- <geometry>
-     -> ok <hex of the model's stream> <num_encoded_points> <num_encoded_faces> <rt> <iso> <counts> <info>
+     -> ok <hex of the model's stream> <num_encoded_points> <num_encoded_faces> <rt> <iso> <counts> <info> <hyp>
       | fail | unsupported <what> | not-edgebreaker | bad-op
 
    The encoder heuristics (`EbEnc.EbChoices`: tagged / raw symbol scheme per attribute and per valence
@@ -25,7 +26,16 @@ import Ops.Metadata
             model's stream and the encoder's corner table (corner map given by
             `processed_connectivity_corners_`).
    <counts> `counts-ok`: the numbers of encoded points / faces the encoder model reports equal the decoded
-            geometry's. -/
+            geometry's.
+   <hyp>    `hyp-ok`: every named hypothesis of the conditional theorems of DracoProps/C01Eb.lean holds on this
+            case (`EbEnc.valueBlockHyps` for every value block: scheme kinds, block invariance under the change of
+            mesh data, the decoder's parent attribute, sizes, int32 range, canonical normals, corner counts,
+            crease counts; `EbEnc.ctIsoSideOk`; `EbEnc.tvIsoCheck` / `mdIsoCheck`: the decoder's and the encoder's
+            mesh data of the block are isomorphic under the corner map of `processed`; `EbEnc.valueBlockHypsIso`:
+            the hypotheses of `eb_value_block_conditional_iso` — isomorphic VIEWS, `Hedge`, `OppInvol`, parent, side
+            conditions, marked with a prime), and the conclusion of `eb_value_block_conditional` evaluates to
+            true (the decoder function on the decoder's mesh data returns the portable values and consumes exactly
+            the block); otherwise `hyp-fails:<names>`. -/
 namespace Draco.Ops
 open Draco Draco.Proto Draco.SeqEnc Draco.EbEnc
 
@@ -133,6 +143,76 @@ def decodeMeshOnly : DecM Eb.Mesh := do
     let _ ← DecM.lift Leaf.decodeGeometryMetadata
   Eb.decodeConnectivity
 
+/-- the decoder's side of the value blocks of the model's stream: for every block of the encoder the number of
+    entries, the decoder's mesh data, entry → point map and parent attribute (as `decodeAttributes` builds them from
+    the decoded connectivity `mesh`; `decS` = the geometry decoded with every transform skipped, from which the
+    portable values of the position attribute are taken) -/
+def decoderSides (enc : Encoded) (mesh : Eb.Mesh) (decS : Geometry) (posId : Option Nat) :
+    Eb.R (Array (Nat × Eb.MeshData × Eb.SeqOut × Option Eb.Parent)) := do
+  let streamAtts : List Nat := enc.order.toList.flatMap fun e => (enc.controllers[e]!).attIds.toList
+  let decOf := fun (e : Nat) =>
+    let c := enc.controllers[e]!
+    let perVertex := c.attDataId < 0 || (enc.conn.atts[c.attDataId.toNat]!).conn.noInteriorSeams
+    ({ attDataId := c.attDataId, cornerDecoder := !perVertex, traversalMethod := c.traversalMethod } : Eb.AttDecoder)
+  let mut out := #[]
+  let mut k := 0
+  for b in enc.blocks do
+    let dec := decOf b.ctrl
+    let seq ← Eb.sequenceOfDecoder mesh dec
+    let view := Eb.viewOfDecoder mesh dec
+    -- the parent: the position attribute when its block precedes this one
+    let mut parent : Option Eb.Parent := none
+    match posId with
+    | none => pure ()
+    | some pid =>
+      match (List.range k).find? fun j => (enc.blocks[j]!).attId == pid with
+      | none => pure ()
+      | some j =>
+        let pb := enc.blocks[j]!
+        let pdec := decOf pb.ctrl
+        let pseq ← Eb.sequenceOfDecoder mesh pdec
+        let m ← Eb.pointToValueMap (Eb.viewOfDecoder mesh pdec) mesh.faces mesh.numPoints pseq.v2d
+        let di := (streamAtts.idxOf pid)
+        let a := decS.atts.getD di default
+        let ints := ((leGroups 4 a.values).map (toSigned 32)).toArray
+        parent := some { numComponents := a.numComponents, map := m, ints := ints, intsOk := true,
+                         floats := #[], floatsOk := false }
+    out := out.push (seq.pointIds.size, ({ t := view, d2c := seq.d2c, v2d := seq.v2d } : Eb.MeshData), seq, parent)
+    k := k + 1
+  pure out
+
+/-- evaluation of the named hypotheses and of the conclusion of `eb_value_block_conditional` on every block -/
+def hypsOf (ch : EbChoices) (o : EbOpts) (g : Geometry) (enc : Encoded) (mesh : Eb.Mesh) (decS : Geometry) : String :=
+  let posId := (List.range g.atts.length).find? fun i =>
+    (g.atts.getD i default).attType == Generated.geometryAttribute_POSITION.toNat
+  match decoderSides enc mesh decS posId with
+  | .error _ => "hyp-fails:decoderSides"
+  | .ok sides =>
+    let fails := (List.range enc.blocks.size).flatMap fun k =>
+      let b := enc.blocks[k]!
+      let (n, mdD, seqD, parentD) := sides[k]!
+      let pointIdsD := seqD.pointIds
+      let hy := valueBlockHyps ch o.base b n mdD pointIdsD parentD
+      -- the conclusion
+      let comps := (g.atts.getD b.attId default).numComponents
+      let concl :=
+        match Eb.decodeIntegerValuesEb b.kind n b.nc comps mdD pointIdsD parentD
+                { rest := b.bytes ++ [85], version := 514 } with
+        | (some (vals, _), st) => vals == b.portable && st.rest == [85]
+        | _ => false
+      -- TVIso / MDIso between the decoder's and the encoder's mesh data (corner map of `processed`)
+      let φ := phiOf enc.conn.processed
+      let (psi, back, cback) := buildMaps mdD.t b.md.t φ
+      let iso := (if tvIsoCheck mdD.t b.md.t φ psi back cback then [] else ["tvIso"]) ++
+                 (if mdIsoCheck mdD b.md φ psi then [] else ["mdIso"]) ++
+                 -- the hypotheses of `eb_value_block_conditional_iso` (views isomorphic ⇒ block read back)
+                 (valueBlockHypsIso ch o.base b mdD.t seqD parentD φ psi back cback).map (· ++ "'") ++
+                 (if enc.conn.processed.size == mdD.t.numFaces then [] else ["processedSize"])
+      (hy ++ iso ++ (if concl then [] else ["conclusion"])).map fun nme => s!"{b.attId}.{nme}"
+    let side := if ctIsoSideOk enc.conn.ct mesh.numFaces mesh.c2v then [] else ["ctIsoSide"]
+    let all := fails ++ side
+    if all.isEmpty then "hyp-ok" else "hyp-fails:" ++ ",".intercalate all
+
 def errText : Eb.Err → String
   | .fail => "fail"
   | .ub s => "unsupported ub:" ++ s.replace " " "_"
@@ -176,15 +256,20 @@ def ebencOp (args : List String) : String :=
             if r.geometry.numPoints == enc.numEncodedPoints && r.geometry.faces.length == enc.numEncodedFaces
             then "counts-ok" else s!"counts-differ:{r.geometry.numPoints}/{r.geometry.faces.length}"
           | _ => "counts-n/a"
+        let meshD := decodeMeshOnly { rest := bs }
         let iso :=
-          match decodeMeshOnly { rest := bs } with
+          match meshD with
           | (some m, _) => if ctIso enc.conn.ct enc.conn.processed m.numFaces m.c2v m.opp then "iso-ok" else "iso-differs"
           | _ => "iso-n/a"
+        let hyp :=
+          match meshD, decS with
+          | (some m, _), (some rs, _) => hypsOf ch o g enc m rs.geometry
+          | _, _ => "hyp-n/a"
         let c := enc.conn
         let info := s!"sym={c.symbols.size},split={c.numSplitSymbols},events={c.splits.size},starts={c.startFaces.size}," ++
           s!"attdata={c.atts.size},encoders={enc.controllers.size},schemes=" ++
           "/".intercalate (enc.outs.toList.map fun a => s!"{a.kind}:{a.scheme.method}")
-        s!"ok {hexOfBytes bs} {enc.numEncodedPoints} {enc.numEncodedFaces} {rt} {iso} {counts} {info}"
+        s!"ok {hexOfBytes bs} {enc.numEncodedPoints} {enc.numEncodedFaces} {rt} {iso} {counts} {info} {hyp}"
   | _ => "bad-op"
 
 def ebEncOps : List (String × (List String → String)) := [("ebenc", ebencOp)]
